@@ -104,6 +104,33 @@ def cache_histories(ctx, books):
         return
     probe = ctx.run_impl(["k%d\topen\txlsx\t%s\tloadmerges;loadtables" % (k, p) for k, (f, p, n, t) in enumerate(xb)])
     hist = []
+    # a load that fails must fail the same way every time (no half-filled cache left behind that
+    # makes the next load report success): [load, load, other reads, load]
+    fl = []
+    for k, (f, p, names, tables) in enumerate(xb):
+        a = (probe.get("k%d" % k) or "").split(";;")
+        if len(a) == 2 and not all(x.startswith("loaded:") for x in a):
+            n0 = names[0] if names else hexs("x")
+            fl.append("f%d\topen\txlsx\t%s\tloadtables;loadtables;range %s;loadmerges;loadmerges;loadtables;rawtables;loadmerges" % (k, p, n0))
+    fimpl = ctx.run_impl(fl)
+    for line in fl:
+        lid = line.split("\t", 1)[0]
+        a = (fimpl.get(lid) or "abort").split(";;")
+        ctx.traces += 1
+        ctx.count("failing_load_repeated")
+        why = None
+        if len(a) < 8:
+            why = "the call sequence did not complete"
+        elif not (a[0] == a[1] == a[5]):
+            why = "load_tables answers %s, %s, %s on the same workbook" % (a[0][:40], a[1][:40], a[5][:40])
+        elif not (a[3] == a[4] == a[7]):
+            why = "load_merged_regions answers %s, %s, %s on the same workbook" % (a[3][:40], a[4][:40], a[7][:40])
+        elif a[0].startswith("err") and not a[6].startswith(("panic", "err")):
+            why = "tables are listed (%s) although loading them failed" % a[6][:60]
+        if why:
+            ctx.violations.append({"case": line.split("\t", 1)[1], "expected": "a failing load fails every time", "actual": ";;".join(a)[:300], "model": "", "what": why})
+        else:
+            ctx.nontrivial("failload|" + line)
     for k, (f, p, names, tables) in enumerate(xb):
         a = (probe.get("k%d" % k) or "").split(";;")
         if len(a) != 2 or not all(x.startswith("loaded:") for x in a):
@@ -309,6 +336,13 @@ def run(ctx):
             calls += ["range " + v, "formula " + v] + (["ref " + v] if f in HAS_REF else [])
         al.append("p%d\topen\t%s\t%s\t%s" % (k, f, p, ";".join(calls)))
         al.append("q%d\topen\tauto\t%s\t%s" % (k, p, ";".join(calls)))
+        # through auto-detection every format answers worksheet_range_ref (xls / ods by converting
+        # the stored range): it must equal worksheet_range cell by cell, also under a header row
+        rcalls = []
+        for n in names[:3]:
+            rcalls += ["range " + n, "ref " + n]
+        rcalls += ["hdr 1"] + [x for n in names[:2] for x in ("range " + n, "ref " + n)]
+        al.append("u%d\topen\tauto\t%s\t%s" % (k, p, ";".join(rcalls)))
     aimpl = ctx.run_impl(al)
     for k, (f, p, names, tables) in enumerate(books):
         a = (aimpl.get("p%d" % k) or "abort").split(";;")
@@ -360,6 +394,18 @@ def run(ctx):
                 why = "auto-detection chose %s for a %s workbook" % (qs[0], f)
             elif qs[1:] != a:
                 why = "a workbook opened through auto-detection answers differently from the format's own reader"
+        if why is None:
+            u = (aimpl.get("u%d" % k) or "abort").split(";;")[1:]
+            pairs = [x for x in u if x != "ok" and not x.startswith("hdr")]
+            j = 0
+            while j + 1 < len(u):
+                if u[j] in ("ok", "") or u[j].startswith("hdr="):
+                    j += 1
+                    continue
+                if u[j] != u[j + 1]:
+                    why = "through auto-detection worksheet_range_ref differs from worksheet_range: %s vs %s" % (u[j + 1][:80], u[j][:80])
+                    break
+                j += 2
         if why:
             ctx.violations.append({"case": case, "expected": "C07 access-path agreement", "actual": ";;".join(a)[:300], "model": "", "what": why})
         else:
